@@ -107,6 +107,51 @@ Proof.
     eapply IH; [|exact H]. eapply step_transposes; eauto.
 Qed.
 
+(* ---------------- summing duplicates keeps every sum ---------------- *)
+Definition wsum (p : entry -> bool) (a : mat) : Q := qsum (map ewt (filter p a)).
+Definition key_respecting (p : entry -> bool) : Prop :=
+  forall e1 e2, erow e1 = erow e2 -> ecol e1 = ecol e2 -> p e1 = p e2.
+
+Lemma minsert_wsum : forall p e l, key_respecting p ->
+    wsum p (minsert e l) == wsum p (e :: l).
+Proof.
+  intros p e l Hp. unfold wsum. induction l as [|y r IH]; cbn [minsert].
+  - reflexivity.
+  - destruct ((erow e =? erow y)%nat && (ecol e =? ecol y)%nat) eqn:K.
+    + apply andb_prop in K. destruct K as [K1 K2].
+      apply Nat.eqb_eq in K1. apply Nat.eqb_eq in K2.
+      assert (E1 : p (erow y, ecol y, Qred (ewt e + ewt y)) = p y) by (apply Hp; reflexivity).
+      assert (E2 : p e = p y) by (apply Hp; assumption).
+      cbn [filter]. rewrite E1, E2. destruct (p y); cbn [map].
+      * rewrite !qsum_cons. unfold ewt at 1. cbn [snd]. rewrite Qred_correct. ring.
+      * reflexivity.
+    + destruct ((erow e <? erow y)%nat || ((erow e =? erow y)%nat && (ecol e <? ecol y)%nat)).
+      * reflexivity.
+      * cbn [filter]. cbn [filter] in IH.
+        destruct (p y); destruct (p e); cbn [map] in *; rewrite ?qsum_cons in *; rewrite IH; ring.
+Qed.
+
+Lemma mcompress_wsum : forall p a, key_respecting p -> wsum p (mcompress a) == wsum p a.
+Proof.
+  intros p a Hp. induction a as [|e a IH]; cbn [mcompress fold_right].
+  - reflexivity.
+  - fold (mcompress a). rewrite (minsert_wsum p e _ Hp). unfold wsum in *. cbn [filter].
+    destruct (p e); cbn [map]; rewrite ?qsum_cons, IH; reflexivity.
+Qed.
+
+(* the stored product has the same row sums and per-side column sums as mmul *)
+Lemma mprod_row_sum : forall a b i, row_sum (mprod a b) i == row_sum (mmul a b) i.
+Proof.
+  intros. apply (mcompress_wsum (fun e => Nat.eqb (erow e) i)).
+  intros e1 e2 H1 H2. rewrite H1. reflexivity.
+Qed.
+
+Lemma mprod_csum : forall p a b j, csum p (mprod a b) j == csum p (mmul a b) j.
+Proof.
+  intros. apply (mcompress_wsum (fun e => p (erow e) && Nat.eqb (ecol e) j)).
+  intros e1 e2 H1 H2. rewrite H1, H2. reflexivity.
+Qed.
+
 (* ---------------- products ---------------- *)
 Lemma row_sum_scaled_block : forall (x : entry) (l : mat) i,
     row_sum (map (fun y => (erow x, ecol y, ewt x * ewt y)) l) i ==
@@ -282,4 +327,29 @@ Lemma transpose_sums : forall (p : nat -> bool) (a : mat) (k : nat),
     rsum p (mtrans a) k == csum p a k.
 Proof.
   intros. split; [apply row_sum_mtrans | split; [apply col_sum_mtrans | apply rsum_mtrans]].
+Qed.
+
+Lemma mprod_unit_rows : forall a b i,
+    (forall x, In x a -> erow x = i -> row_sum b (ecol x) == 1) ->
+    row_sum (mprod a b) i == row_sum a i.
+Proof. intros. rewrite mprod_row_sum. apply mmul_unit_rows. assumption. Qed.
+
+Lemma mprod_side_cols : forall (p q : nat -> bool) (a b : mat) (j : nat),
+    (forall y, In y b -> ecol y = j ->
+       csum p a (erow y) == if q (erow y) then 1 else 0) ->
+    csum p (mprod a b) j == csum q b j.
+Proof. intros. rewrite mprod_csum. apply mmul_side_cols. assumption. Qed.
+
+(* 2-D blocks: weights of match_2d from overlap areas satisfying the C33 area contract *)
+Lemma kmatch_sums : forall tol b,
+    (forall i, (i < length (kb_vnew b))%nat -> ~ nth i (kb_vnew b) 0 == 0 ->
+       row_sum (kb_isect b) i == nth i (kb_vnew b) 0 ->
+       row_sum (kmatch tol Averaged b) i == 1) /\
+    (forall j, (j < length (kb_vold b))%nat -> ~ nth j (kb_vold b) 0 == 0 ->
+       col_sum (kb_isect b) j == nth j (kb_vold b) 0 ->
+       col_sum (kmatch tol Integrated b) j == 1).
+Proof.
+  intros tol b. split.
+  - intros i _ Hz Hs. unfold kmatch. rewrite scale_avg_row. apply unit_quotient; assumption.
+  - intros j _ Hz Hs. unfold kmatch. rewrite scale_int_col. apply unit_quotient; assumption.
 Qed.
